@@ -30,14 +30,27 @@ def _eval_py(jobs):
         table = [[t, p] for t, p in part]
         res = []
         warnings = []
-        rbql.query_table('select like(a1, a2)', table, res, warnings)
-        out_q.extend(r[0] for r in res)
+        try:
+            rbql.query_table('select like(a1, a2)', table, res, warnings)
+            out_q.extend(r[0] for r in res)
+        except Exception:  # noqa
+            # a pair that makes like() raise fails the whole batch: evaluate the pairs one by one, the exception is that pair's result
+            for row in table:
+                res = []
+                try:
+                    rbql.query_table('select like(a1, a2)', [row], res, [])
+                    out_q.append(res[0][0])
+                except Exception as e:  # noqa
+                    out_q.append('raised ' + type(e).__name__ + ': ' + str(e)[:80])
     out = []
     has_l2r = hasattr(eng, 'like_to_regex')
     for (t, p), q in zip(jobs, out_q):
         rx = None
         if has_l2r:
-            rx = re.match(eng.like_to_regex(p), t) is not None
+            try:
+                rx = re.match(eng.like_to_regex(p), t) is not None
+            except Exception as e:  # noqa
+                rx = 'raised ' + type(e).__name__ + ': ' + str(e)[:80]
         out.append((q, rx))
     return out
 
@@ -48,9 +61,16 @@ def eval_js(jobs):
         reqs.append({'op': 'query_table', 'query': 'select like(a1, a2)', 'input': [[t, p] for t, p in part]})
     resp = node.run_batch(reqs, nproc=par.NPROC)
     out = []
-    for r in resp:
+    for req, r in zip(reqs, resp):
         if r.get('error'):
-            raise core.machinery_failure('js like batch failed: %s' % r['error'])
+            # one by one: the exception is the result of the pair that raises it
+            single = node.run_batch([{'op': 'query_table', 'query': 'select like(a1, a2)', 'input': [row]} for row in req['input']], nproc=par.NPROC)
+            for r1 in single:
+                if r1.get('error'):
+                    out.append('raised ' + r1['error']['cls'] + ': ' + r1['error']['msg'][:80])
+                else:
+                    out.append(r1['out'][0][0][1] if r1['out'][0][0][0] == 'b' else r1['out'][0][0])
+            continue
         out.extend(row[0][1] if row[0][0] == 'b' else row[0] for row in r['out'])
     return out
 
@@ -114,6 +134,9 @@ def check(run):
     rjs = eval_js(rjobs)
     traces = []
     for tid, ((t, p), (q, rx), j) in enumerate(zip(rjobs, rpy, rjs), 1):
+        for impl_, got in (('py', q), ('js', j)):
+            if isinstance(got, str):        # like() raised: LIKE is total
+                run.violation({'impl': impl_, 'entry': 'select like(a1, a2)', 'what': 'like raised', 'got': got[:60], 'pattern': p, 'text': t}, {'kind': 'like_pair', 'pattern': p, 'text': t, 'want': None})
         traces.append({'tid': tid, 'impl': 'py', 'text': cps(t), 'pat': cps(p), 'result': bool(q)})
         traces.append({'tid': -tid, 'impl': 'js', 'text': cps(t), 'pat': cps(p), 'result': bool(j)})
     path = os.path.join(d, 'traces.ndjson')
